@@ -1,4 +1,5 @@
 """C08 — tokenization inverts joining: Separator/Model.v vs wordseg.separator."""
+import copy
 import sys
 
 from common import load_corpus, Check, correspond, decode_result, call_impl, finish_proof_failures, s2j, j2s
@@ -74,16 +75,39 @@ def mk(sep, fresh=False):
     return _SHARED[key]
 
 
+def _scramble(x):
+    """what a caller may do to a list it was given: modify it in place, at every depth"""
+    if isinstance(x, list):
+        for y in x:
+            _scramble(y)
+        x.reverse()
+        x.append('</caller>')
+        if len(x) > 2:
+            x.pop(0)
+
+
 def case(kind, sep, utt, level, keep, family, oracle=None):
     lv = [] if level is None else [LEVELS.index(level)]
+    inner = oracle
+
+    def oracle(out):      # noqa: F811
+        if out[0] == 'ok' and isinstance(out[1], tuple) and out[1] and out[1][0] == 'second-call-differs':
+            return 'tokenize() asked again after the caller modified the first result in place answers %r, not %r' % (out[1][2], out[1][1])
+        return inner(out) if inner else None
 
     def impl():
         def f():
             s = mk(sep)
-            if kind == 1:
-                return list(s.tokenize(utt, level, keep_boundaries=keep))
-            if kind == 2:
-                return s.tokenize(utt)
+            if kind in (1, 2):
+                # the result belongs to the caller: after the caller has modified it in place, the same question
+                # gets the same (fresh) answer
+                first = list(s.tokenize(utt, level, keep_boundaries=keep)) if kind == 1 else s.tokenize(utt)
+                answer = copy.deepcopy(first)
+                _scramble(first)
+                second = list(s.tokenize(utt, level, keep_boundaries=keep)) if kind == 1 else s.tokenize(utt)
+                if second != answer:
+                    return ('second-call-differs', answer, second)
+                return answer
             if kind == 3:
                 return s.remove(utt, level)
             if kind == 4:
